@@ -95,6 +95,11 @@ CLAIMED = {
     note="Trusted: Coq kernel (axiom-free theorems); harness/c16.py (expression generator printing both C and Coq syntax); insert_after placement is checked by the oracle only.",
     technique="Coq proof (substitution/evaluation commutation by induction over the assignment list) + probe-model correspondence",
     design="DESIGN.md §3 C16"),
+ "C10": dict(
+    text="Coq theorems for every parameter table, every set of keyword names and every string: a key that is neither a call-parameter name nor one of the four dispersity suffixes of a dispersible parameter makes get_mesh / create_parameters refuse the call whatever else it contains, a call using only accepted names is not refused for its names, a suffix on a non-dispersible parameter is not an accepted name, setParam refuses every name that is not a visible parameter (or field of a visible dispersible one), the two naming schemes (name_pd_n vs name.npts ...) correspond one to one, and the points for which theory is returned are exactly the order-preserving filter of the data by (q within limits, mask 0, data not NaN). Tied to the code by running the executable Coq model (vm_compute; binary64 for the selection predicate) on the same key sets / setParam calls / masked data objects as call_kernel, DirectModel, Iq, bumps Model and SasviewModel.setParam, with the tables read from /repo on each run; the agreement of the four interfaces (1e-12) over models x parameter/dispersity settings in both naming schemes x multiplicity x 1-D/2-D/pinhole/slit data, hidden scale/background of structure factors and array distributions is decided by a model-free comparison.",
+    note="Trusted: Coq kernel + vm_compute (axiom-free theorems); harness/c10.py (stub bumps.parameter, scheme translation, point-by-point selection oracle); the numerical agreement of the interfaces is measured, not proved (the kernel call they share is C01's subject).",
+    technique="Coq proof (list/string membership, filter) + vm_compute correspondence + cross-interface differential oracle",
+    design="DESIGN.md §3 C10"),
 }
 NA_REASON = "check not built yet in this session (planned, see DESIGN.md §7)"
 
